@@ -227,6 +227,13 @@ func (c *FCtx) arithBV(op token.Token, a, b *Term, t types.Type) *Term {
 	if t == nil {
 		signed = true
 	}
+	if a.Op == "int" {
+		w, _, ok := intInfo(t)
+		if !ok || t == nil {
+			w = 64
+		}
+		a = BVC(a.Val, w)
+	}
 	if !a.Sort.IsBV() || (!b.Sort.IsBV() && !b.IsConst()) {
 		panic(fmt.Sprintf("arithBV on non-bv operands %s:%s %s:%s", a, a.Sort, b, b.Sort))
 	}
@@ -257,19 +264,38 @@ func (c *FCtx) arithBV(op token.Token, a, b *Term, t types.Type) *Term {
 		}
 		return bvBin("bvlshr", a, cnt)
 	}
+	if b.Op == "int" {
+		b = BVC(b.Val, a.Sort.BVWidth())
+	}
+	w := a.Sort.BVWidth()
 	switch op {
 	case token.ADD:
 		return bvBin("bvadd", a, b)
 	case token.SUB:
 		return bvBin("bvsub", a, b)
 	case token.MUL:
+		if !a.IsConst() && !b.IsConst() && !c.reveal {
+			// two symbolic factors: opaque (only congruence is used)
+			return App(fmt.Sprintf("mul$%d", w), a.Sort, a, b)
+		}
 		return bvBin("bvmul", a, b)
 	case token.QUO:
+		if !b.IsConst() && !c.reveal {
+			return App(fmt.Sprintf("div$%d%v", w, signed), a.Sort, a, b)
+		}
 		if signed {
 			return bvBin("bvsdiv", a, b)
 		}
 		return bvBin("bvudiv", a, b)
 	case token.REM:
+		if !b.IsConst() && !c.reveal {
+			// symbolic modulus: opaque, with the one fact the proofs need (result < modulus)
+			r := App(fmt.Sprintf("rem$%d%v", w, signed), a.Sort, a, b)
+			if !signed {
+				c.sideFacts = append(c.sideFacts, Implies(Neq(b, BVC(bigZero, w)), bvCmp("bvult", r, b)))
+			}
+			return r
+		}
 		if signed {
 			return bvBin("bvsrem", a, b)
 		}
